@@ -253,5 +253,5 @@ def tests(tier):
     if tier == "thorough":
         from engines.fuzz_targets import C18_CORPUS, C18_DICT
 
-        t.append(fuzz_testdef("c18", 60000, dictionary=C18_DICT, corpus=C18_CORPUS, max_len=1024, nontrivial_token=b"!"))
+        t.append(fuzz_testdef("c18", 30000, dictionary=C18_DICT, corpus=C18_CORPUS, max_len=1024, nontrivial_token=b"!"))
     return t
